@@ -30,6 +30,8 @@ def mro_instance_classes(repo: Repo, ci: ClassInfo) -> Dict[str, Tuple[ClassInfo
         init = c.methods.get("__init__")
         if init is None:
             continue
+        from . import inline
+        init = inline.normalize(repo, c, init)
         for n in walk_no_nested(init):
             if isinstance(n, ast.Assign) and isinstance(n.value, ast.Call):
                 ch = attr_chain(n.targets[0])
@@ -53,6 +55,18 @@ def list_length(repo: Repo, ci: ClassInfo, attr: str) -> Optional[int]:
         for n in walk_no_nested(init):
             if isinstance(n, ast.Assign) and norm(n.targets[0]) == f"self.{attr}":
                 v = n.value
+                while isinstance(v, ast.Call) and norm(v.func) in ("list", "tuple") and len(v.args) == 1:
+                    v = v.args[0]
+                if isinstance(v, ast.Call) and norm(v.func) == "map" and len(v.args) == 2:
+                    try:
+                        return len(repo.fold(v.args[1], ci=c, sf=c.file))
+                    except (NotConst, TypeError):
+                        return None
+                if isinstance(v, ast.GeneratorExp) and len(v.generators) == 1 and not v.generators[0].ifs:
+                    try:
+                        return len(repo.fold(v.generators[0].iter, ci=c, sf=c.file))
+                    except (NotConst, TypeError):
+                        return None
                 if isinstance(v, ast.List):
                     return len(v.elts)
                 if isinstance(v, ast.BinOp) and isinstance(v.op, ast.Mult):
